@@ -38,7 +38,8 @@ are included in the partitions it was built over, decided in a partition algebra
 getters' own source (cells over: in the main crossing / complex window / derived / source); (backend unsat) the
 pyunigen sampling call, which ends the process on an unsatisfiable formula, is dominated by a satisfiability test with
 an empty early return, and the pycmsgen adapter maps 'no model' to the empty result; (no crossing) every lookup of a
-per-crossing list by the main-crossing index in the combinatoric sampler is reached only when the block has crossings.
+per-crossing list by the main-crossing index in the combinatoric sampler is reached only when the block has crossings;
+(empty request) the cardinality encoder's entry points never pass a possibly empty variable list to a helper that raises on it.
 """
 NOT_DECIDED = "KeyError / IndexError from data-dependent indices (layout arithmetic, user level names), exceptions raised inside user predicates, solver processes that fail, and designs that the constructors should have refused."
 
@@ -885,6 +886,52 @@ def rule_no_crossing(ctx):
     ctx.require(n >= 6, "only %d main-crossing lookups found (7 confirmed by hand)" % n)
 
 
+def rule_empty_request(ctx):
+    """A window without applicable trials gives an empty variable list (Block.build_variable_lists, see PRODUCERS), and the
+    cardinality constraints hand such lists to the encoder as they are.  The entry points of the encoder
+    (assert_k_of_n, _inequality_assertion) must therefore not let an empty list reach a helper that raises on it: every call that
+    passes the list parameter to a function of CNF with a `raise` under the list's emptiness is dominated by a non-emptiness
+    guard on that parameter."""
+    R = "C08.empty-request"
+    cnf = ctx.repo.cls("cnf:CNF")
+    raisers = {}
+    for name, m in cnf.methods.items():
+        if isinstance(m.node, ast.Lambda):
+            continue
+        F = Facts(m)
+        for st in F.stmts:
+            if isinstance(st, ast.Raise):
+                for c_ in F.conds(st):
+                    for p_ in m.params:
+                        if c_.replace(" ", "") in ("not(%s)" % p_, "empty(%s)" % p_, "(0==len(%s))" % p_):
+                            raisers[name] = p_
+    n = 0
+    for ename in ("assert_k_of_n", "_inequality_assertion"):
+        e = cnf.methods.get(ename)
+        ctx.require(e is not None, "CNF.%s not found" % ename)
+        lp = "in_list" if "in_list" in e.params else None
+        ctx.require(lp is not None, "CNF.%s: list parameter not found" % ename)
+        Fe = Facts(e)
+        for st in Fe.stmts:
+            if isinstance(st, (ast.For, ast.If, ast.While, ast.With, ast.Try)):
+                continue
+            for c_ in ast.walk(st):
+                if isinstance(c_, ast.Call) and isinstance(c_.func, ast.Attribute) and dotted(c_.func.value) == "self" and c_.func.attr in raisers and \
+                        any(dotted(a_) == lp for a_ in c_.args):
+                    n += 1
+                    conds = Fe.conds(st)
+                    ok = any(x.replace(" ", "") in (lp, "nonempty(%s)" % lp, "(0<len(%s))" % lp, "(0!=len(%s))" % lp) for x in conds)
+                    ctx.check(ok, R, e, "%s(%s) under %s" % (c_.func.attr, lp, [x for x in conds if lp in x]),
+                              "%s is called with the request's variable list only when that list is non-empty" % c_.func.attr,
+                              "CNF.%s passes its variable list to %s, which raises on an empty list, without a non-emptiness guard (path condition %s): a cardinality constraint over "
+                              "a window that has no applicable trial (ExactlyK on a strided or transition level under Repeat) makes the SAT samplers raise ValueError" % (
+                                  ename, c_.func.attr, conds), c_)
+        if not raisers:
+            ctx.ok(R, e, "CNF.%s: no helper of the encoder raises on an empty variable list" % ename)
+            n += 1
+    ctx.require(n >= 2, "cardinality entry points not analysed")
+
+
 def check(ctx):
     repo = ctx.repo
     cg = CallGraph(repo)
@@ -902,6 +949,7 @@ def check(ctx):
     rule_key_domain(ctx)
     rule_backend_unsat(ctx)
     rule_no_crossing(ctx)
+    rule_empty_request(ctx)
 
     mod = sys.modules[__name__]
     C = "sweetpea/_internal/constraint.py"
@@ -933,6 +981,9 @@ def check(ctx):
     control(ctx, mod, "main crossing searched in a block without crossings",
             lambda s: variants.in_function(s, "sweetpea/_internal/design_partition.py", "DesignPartitions.__init__",
                                            "while (block.crossings != [] and block.crossing_sustain_counts[self.main_crossing] != 1):", "while (block.crossing_sustain_counts[self.main_crossing] != 1):"), "C08.no-crossing")
+    control(ctx, mod, "pop count of a possibly empty request list",
+            lambda s: variants.in_function(s, "sweetpea/_internal/core/cnf.py", "CNF.assert_k_of_n",
+                                           "        if not in_list:\n            # None of no variables is true: nothing to assert.\n            return\n", ""), "C08.empty-request")
     ctx.min_instances("C08.emptiness", 10)
     ctx.min_instances("C08.window-bound", 4)
     ctx.min_instances("C08.divisor", 25)
@@ -943,3 +994,4 @@ def check(ctx):
     ctx.min_instances("C08.remove-once", 1)
     ctx.min_instances("C08.backend-unsat", 2)
     ctx.min_instances("C08.no-crossing", 6)
+    ctx.min_instances("C08.empty-request", 2)
